@@ -129,6 +129,14 @@ func (srv *Server) handleChannel(ctx context.Context, c *ServerChannel) {
 
 	if err != nil {
 		log.Printf("server: establish: %v\n", err)
+		// release the connection: nobody is going to serve it
+		_ = c.Close()
+		return
+	}
+
+	if !c.Established() {
+		// the handshake was answered with a failed session: it never became a session
+		_ = c.Close()
 		return
 	}
 
